@@ -1,1 +1,2216 @@
-//! data-driven AIR family shared by the protocol-level properties (filled in later)
+//! genair: a DATA-DRIVEN family of computations (AIRs) with a prover, a trace generator and a
+//! reference validity predicate, shared by the protocol-level properties (C01–C04, C06, C14, C17).
+//!
+//! # Public API (stable; extended compatibly)
+//!
+//! * [`AirDesc`] — description of one computation; `AirDesc::parse(&str)` / `to_line()` convert
+//!   from/to ONE text token without blanks (grammar below); `validate()`, `min_blowup()`,
+//!   `max_exemptions()`, `natural_degree()`, `num_pub_inputs()`.
+//! * [`Expr`] — expression trees of constraints / generation rules (prefix notation).
+//! * [`GenericAir<B>`] (`winter_air::Air`), [`GenPub<B>`] (its public inputs: description + asserted
+//!   values), [`GenTrace<B>`] (`winter_prover::Trace`), [`GenericProver<B, H, R>`]
+//!   (`winter_prover::Prover`, `DefaultTraceLde`, `DefaultConstraintEvaluator`).
+//! * [`gen_trace`]`(desc, field, seed) -> TraceData` — a trace valid by construction (column major,
+//!   canonical integers); [`pub_inputs`]`(desc, field, &trace) -> Vec<u128>` — the asserted values.
+//! * [`is_valid`]`(desc, field, &trace, &pubs) -> Result<(), Violation>` — reference validity
+//!   predicate of the main segment, written without the library (direct evaluation);
+//!   [`check_main`] / [`check_aux`] are its generic parts (the auxiliary segment depends on the
+//!   verifier's randomness: `prove_ex` reports its validity as observed during proving).
+//! * [`prove`]`(desc, &trace, field, &OptSpec, hasher) -> Result<Proof, ProverError>`,
+//!   [`prove_ex`] (additionally returns the validity of the auxiliary segment that was built),
+//!   [`verify`]`(desc, field, hasher, &pubs, proof, &AcceptableOptions) -> Result<(), VerifierError>`
+//!   — dispatch over [`FieldId`] × extension (in the options) × [`HashId`]; no generics needed.
+//! * [`OptSpec`] — proof options as plain numbers (`q.b.g.x.f.r` text form), `accepted()` = what
+//!   `ProofOptions::new` accepts, `to_options()`.
+//! * [`random_desc`]`(rng, &Budget) -> AirDesc` — random description within a size budget.
+//!
+//! # Text form of a description (one token, no blanks)
+//! `w=<main width>;l=<trace length>;e=<exemptions>;j=<0|1 junk in exempt tail>;p=<col>|<col>…;`
+//! `g=<colgen>,…;t=<constraint>,…;a=<assertion>,…[;x=<aux width>.<aux rands>.<0|1 lagrange>;`
+//! `h=<auxgen>,…;u=<constraint>,…;b=<assertion>=<expr>,…]`
+//! * periodic column: values separated by `.`; constraint: `<base>[.<cycle>]*:<expr>`;
+//! * assertion: `s<col>.<step>` | `p<col>.<first>.<stride>` | `q<col>.<first>.<stride>` (sequence of
+//!   `l/stride` values); the asserted VALUES are not part of the description: they are the public
+//!   inputs, in the order of the assertions (a sequence contributes all its values);
+//! * colgen (how the trace generator fills main column j): `R` random | `K<v>` constant v | `K?`
+//!   random constant | `L<d>` evaluations of a random polynomial of degree d | `I` counter 0,1,2… |
+//!   `Y<c>` random values repeating with period c | `S<init|?>:<expr>` next value = expr(current
+//!   row `c*`, periodic `p*`, next cells `n<k>` of columns k<j) | `F:<expr>` value = expr(current
+//!   cells `c<k>` of columns k<j, periodic);
+//! * auxgen: `F:<expr>` (cells `c* n* p* r*`, `a<k>` of aux columns k<j) | `A<init>:<step>` running
+//!   column: first value init(r*, k*), next value = step(`c* n* p* r* a*`, `b<k>` k<j);
+//! * expr, prefix notation: `k<int>` constant, `c<i>`/`n<i>` current/next main cell, `p<i>`
+//!   periodic value, `a<i>`/`b<i>` current/next aux cell, `r<i>` aux random element, `v<i>` public
+//!   input i, `w<i>` public input i+j for the j-th value of a sequence assertion, `+xy -xy *xy /xy`
+//!   (division only in generation rules), `^<k>x` power, `~x` negation.
+#![allow(clippy::too_many_arguments, clippy::type_complexity)]
+use std::marker::PhantomData;
+use std::sync::{Arc, Mutex};
+
+use winter_air::{
+    proof::Proof, Air, AirContext, Assertion, AuxRandElements, ConstraintCompositionCoefficients, EvaluationFrame,
+    FieldExtension, GkrVerifier, LagrangeKernelRandElements, ProofOptions, TraceInfo, TransitionConstraintDegree,
+};
+use winter_crypto::{
+    hashers::{Blake3_192, Blake3_256, Rp62_248, Rp64_256, RpJive64_256, Sha3_256},
+    DefaultRandomCoin, ElementHasher, RandomCoin,
+};
+use winter_math::{
+    fields::{f128, f62, f64},
+    ExtensibleField, ExtensionOf, FieldElement, StarkField, ToElements,
+};
+use winter_prover::{
+    matrix::ColMatrix, DefaultConstraintEvaluator, DefaultTraceLde, Prover, ProverError, StarkDomain, Trace,
+    TracePolyTable,
+};
+use winter_verifier::{AcceptableOptions, VerifierError};
+
+use crate::core::Rng;
+use crate::fields::Fld;
+
+/// base fields usable with the generic AIR
+pub trait GField: Fld + ExtensibleField<2> + ExtensibleField<3> + 'static {}
+impl<T: Fld + ExtensibleField<2> + ExtensibleField<3> + 'static> GField for T {}
+
+/// column-major trace of canonical integers
+pub type TraceData = Vec<Vec<u128>>;
+
+// ================================================================================================
+// EXPRESSIONS
+// ================================================================================================
+#[derive(Clone, Debug, PartialEq, Eq)]
+pub enum Expr {
+    Const(u128),
+    Cur(usize),
+    Nxt(usize),
+    Per(usize),
+    AuxCur(usize),
+    AuxNxt(usize),
+    Rand(usize),
+    Pub(usize),
+    PubSeq(usize),
+    Add(Box<Expr>, Box<Expr>),
+    Sub(Box<Expr>, Box<Expr>),
+    Mul(Box<Expr>, Box<Expr>),
+    Div(Box<Expr>, Box<Expr>),
+    Pow(Box<Expr>, u32),
+    Neg(Box<Expr>),
+}
+
+/// symbolic degree of an expression: `base` trace-column factors and the cycles of periodic factors
+#[derive(Clone, Debug, PartialEq, Eq, Default)]
+pub struct Degree {
+    pub base: usize,
+    pub cycles: Vec<usize>,
+}
+
+impl Degree {
+    pub fn new(base: usize) -> Self {
+        Degree { base, cycles: vec![] }
+    }
+    /// what `TransitionConstraintDegree::get_evaluation_degree` computes
+    pub fn eval_degree(&self, n: usize) -> usize {
+        self.base * (n - 1) + self.cycles.iter().map(|c| (n / c) * (c - 1)).sum::<usize>()
+    }
+    /// what `TransitionConstraintDegree::min_blowup_factor` computes
+    pub fn min_blowup(&self) -> usize {
+        (self.base + self.cycles.len()).saturating_sub(1).next_power_of_two().max(2)
+    }
+    pub fn to_lib(&self) -> TransitionConstraintDegree {
+        if self.cycles.is_empty() {
+            TransitionConstraintDegree::new(self.base)
+        } else {
+            TransitionConstraintDegree::with_cycles(self.base, self.cycles.clone())
+        }
+    }
+}
+
+/// evaluation environment of an expression: main cells over `F`, aux cells and randomness over `E`
+pub struct Env<'a, B: GField, F, E> {
+    pub cur: &'a [F],
+    pub nxt: &'a [F],
+    pub per: &'a [F],
+    pub acur: &'a [E],
+    pub anxt: &'a [E],
+    pub rand: &'a [E],
+    pub pubs: &'a [B],
+    pub seq: usize,
+}
+
+pub fn b(x: Expr) -> Box<Expr> {
+    Box::new(x)
+}
+
+impl Expr {
+    pub fn add(x: Expr, y: Expr) -> Expr {
+        Expr::Add(b(x), b(y))
+    }
+    pub fn sub(x: Expr, y: Expr) -> Expr {
+        Expr::Sub(b(x), b(y))
+    }
+    pub fn mul(x: Expr, y: Expr) -> Expr {
+        Expr::Mul(b(x), b(y))
+    }
+    pub fn div(x: Expr, y: Expr) -> Expr {
+        Expr::Div(b(x), b(y))
+    }
+    pub fn pow(x: Expr, k: u32) -> Expr {
+        Expr::Pow(b(x), k)
+    }
+
+    /// evaluate; panics on an out-of-range index (descriptions are validated when parsed)
+    pub fn eval<B, F, E>(&self, env: &Env<B, F, E>) -> E
+    where
+        B: GField,
+        F: FieldElement<BaseField = B>,
+        E: FieldElement<BaseField = B> + ExtensionOf<F>,
+    {
+        match self {
+            Expr::Const(v) => <E as From<B>>::from(B::from_word(*v % B::MOD)),
+            Expr::Cur(i) => <E as From<F>>::from(env.cur[*i]),
+            Expr::Nxt(i) => <E as From<F>>::from(env.nxt[*i]),
+            Expr::Per(i) => <E as From<F>>::from(env.per[*i]),
+            Expr::AuxCur(i) => env.acur[*i],
+            Expr::AuxNxt(i) => env.anxt[*i],
+            Expr::Rand(i) => env.rand[*i],
+            Expr::Pub(i) => <E as From<B>>::from(env.pubs.get(*i).copied().unwrap_or(B::ZERO)),
+            Expr::PubSeq(i) => <E as From<B>>::from(env.pubs.get(*i + env.seq).copied().unwrap_or(B::ZERO)),
+            Expr::Add(x, y) => x.eval(env) + y.eval(env),
+            Expr::Sub(x, y) => x.eval(env) - y.eval(env),
+            Expr::Mul(x, y) => x.eval(env) * y.eval(env),
+            Expr::Div(x, y) => x.eval(env) * y.eval(env).inv(),
+            Expr::Pow(x, k) => {
+                let v = x.eval(env);
+                let mut r = E::ONE;
+                for _ in 0..*k {
+                    r *= v;
+                }
+                r
+            },
+            Expr::Neg(x) => -x.eval(env),
+        }
+    }
+
+    /// symbolic degree for trace length `n` (sums take the operand of larger evaluation degree)
+    pub fn degree(&self, cycles: &[usize], n: usize) -> Degree {
+        match self {
+            Expr::Const(_) | Expr::Rand(_) | Expr::Pub(_) | Expr::PubSeq(_) => Degree::new(0),
+            Expr::Cur(_) | Expr::Nxt(_) | Expr::AuxCur(_) | Expr::AuxNxt(_) => Degree::new(1),
+            Expr::Per(i) => Degree { base: 0, cycles: vec![cycles.get(*i).copied().unwrap_or(2)] },
+            Expr::Add(x, y) | Expr::Sub(x, y) => {
+                let (dx, dy) = (x.degree(cycles, n), y.degree(cycles, n));
+                if dy.eval_degree(n) > dx.eval_degree(n) {
+                    dy
+                } else {
+                    dx
+                }
+            },
+            Expr::Mul(x, y) | Expr::Div(x, y) => {
+                let (mut dx, dy) = (x.degree(cycles, n), y.degree(cycles, n));
+                dx.base += dy.base;
+                dx.cycles.extend(dy.cycles);
+                dx.cycles.sort();
+                dx
+            },
+            Expr::Pow(x, k) => {
+                let d = x.degree(cycles, n);
+                let mut r = Degree::new(d.base * *k as usize);
+                for _ in 0..*k {
+                    r.cycles.extend(d.cycles.iter().copied());
+                }
+                r.cycles.sort();
+                r
+            },
+            Expr::Neg(x) => x.degree(cycles, n),
+        }
+    }
+
+    /// visit all atoms
+    pub fn walk(&self, f: &mut dyn FnMut(&Expr)) {
+        match self {
+            Expr::Add(x, y) | Expr::Sub(x, y) | Expr::Mul(x, y) | Expr::Div(x, y) => {
+                x.walk(f);
+                y.walk(f);
+                f(self);
+            },
+            Expr::Pow(x, _) | Expr::Neg(x) => {
+                x.walk(f);
+                f(self);
+            },
+            _ => f(self),
+        }
+    }
+
+    pub fn write(&self, o: &mut String) {
+        match self {
+            Expr::Const(v) => o.push_str(&format!("k{}", v)),
+            Expr::Cur(i) => o.push_str(&format!("c{}", i)),
+            Expr::Nxt(i) => o.push_str(&format!("n{}", i)),
+            Expr::Per(i) => o.push_str(&format!("p{}", i)),
+            Expr::AuxCur(i) => o.push_str(&format!("a{}", i)),
+            Expr::AuxNxt(i) => o.push_str(&format!("b{}", i)),
+            Expr::Rand(i) => o.push_str(&format!("r{}", i)),
+            Expr::Pub(i) => o.push_str(&format!("v{}", i)),
+            Expr::PubSeq(i) => o.push_str(&format!("w{}", i)),
+            Expr::Add(x, y) => {
+                o.push('+');
+                x.write(o);
+                y.write(o);
+            },
+            Expr::Sub(x, y) => {
+                o.push('-');
+                x.write(o);
+                y.write(o);
+            },
+            Expr::Mul(x, y) => {
+                o.push('*');
+                x.write(o);
+                y.write(o);
+            },
+            Expr::Div(x, y) => {
+                o.push('/');
+                x.write(o);
+                y.write(o);
+            },
+            Expr::Pow(x, k) => {
+                o.push_str(&format!("^{}", k));
+                x.write(o);
+            },
+            Expr::Neg(x) => {
+                o.push('~');
+                x.write(o);
+            },
+        }
+    }
+
+    pub fn to_text(&self) -> String {
+        let mut s = String::new();
+        self.write(&mut s);
+        s
+    }
+
+    pub fn parse(s: &str) -> Result<Expr, String> {
+        let bytes = s.as_bytes();
+        let mut pos = 0usize;
+        let e = parse_expr(bytes, &mut pos, 0)?;
+        if pos != bytes.len() {
+            return Err(format!("trailing characters in expression `{}`", s));
+        }
+        Ok(e)
+    }
+}
+
+fn parse_num(s: &[u8], pos: &mut usize) -> Result<u128, String> {
+    let start = *pos;
+    let mut v: u128 = 0;
+    while *pos < s.len() && s[*pos].is_ascii_digit() {
+        v = v.checked_mul(10).and_then(|v| v.checked_add((s[*pos] - b'0') as u128)).ok_or("number too large")?;
+        *pos += 1;
+    }
+    if start == *pos {
+        return Err("number expected".into());
+    }
+    Ok(v)
+}
+
+fn parse_expr(s: &[u8], pos: &mut usize, depth: usize) -> Result<Expr, String> {
+    if depth > 200 {
+        return Err("expression too deep".into());
+    }
+    if *pos >= s.len() {
+        return Err("unexpected end of expression".into());
+    }
+    let c = s[*pos];
+    *pos += 1;
+    let idx = |pos: &mut usize| -> Result<usize, String> {
+        let v = parse_num(s, pos)?;
+        if v > 100_000 {
+            return Err("index too large".into());
+        }
+        Ok(v as usize)
+    };
+    Ok(match c {
+        b'k' => Expr::Const(parse_num(s, pos)?),
+        b'c' => Expr::Cur(idx(pos)?),
+        b'n' => Expr::Nxt(idx(pos)?),
+        b'p' => Expr::Per(idx(pos)?),
+        b'a' => Expr::AuxCur(idx(pos)?),
+        b'b' => Expr::AuxNxt(idx(pos)?),
+        b'r' => Expr::Rand(idx(pos)?),
+        b'v' => Expr::Pub(idx(pos)?),
+        b'w' => Expr::PubSeq(idx(pos)?),
+        b'+' | b'-' | b'*' | b'/' => {
+            let x = parse_expr(s, pos, depth + 1)?;
+            let y = parse_expr(s, pos, depth + 1)?;
+            match c {
+                b'+' => Expr::add(x, y),
+                b'-' => Expr::sub(x, y),
+                b'*' => Expr::mul(x, y),
+                _ => Expr::div(x, y),
+            }
+        },
+        b'^' => {
+            let k = parse_num(s, pos)?;
+            if k > 64 {
+                return Err("power too large".into());
+            }
+            Expr::pow(parse_expr(s, pos, depth + 1)?, k as u32)
+        },
+        b'~' => Expr::Neg(b(parse_expr(s, pos, depth + 1)?)),
+        _ => return Err(format!("unexpected character `{}` in expression", c as char)),
+    })
+}
+
+// ================================================================================================
+// DESCRIPTION
+// ================================================================================================
+#[derive(Clone, Debug, PartialEq, Eq)]
+pub struct Constraint {
+    /// declared degree (what the AIR tells the library)
+    pub degree: Degree,
+    pub expr: Expr,
+}
+
+#[derive(Copy, Clone, Debug, PartialEq, Eq)]
+pub enum AssertKind {
+    Single,
+    Periodic,
+    Sequence,
+}
+
+#[derive(Clone, Debug, PartialEq, Eq)]
+pub struct AssertDesc {
+    pub kind: AssertKind,
+    pub column: usize,
+    /// the step of a single assertion, the first step otherwise
+    pub first: usize,
+    /// 0 for single assertions
+    pub stride: usize,
+}
+
+impl AssertDesc {
+    pub fn single(column: usize, step: usize) -> Self {
+        AssertDesc { kind: AssertKind::Single, column, first: step, stride: 0 }
+    }
+    pub fn periodic(column: usize, first: usize, stride: usize) -> Self {
+        AssertDesc { kind: AssertKind::Periodic, column, first, stride }
+    }
+    pub fn sequence(column: usize, first: usize, stride: usize) -> Self {
+        AssertDesc { kind: AssertKind::Sequence, column, first, stride }
+    }
+    /// number of public values this assertion consumes
+    pub fn num_values(&self, n: usize) -> usize {
+        match self.kind {
+            AssertKind::Sequence => n / self.stride.max(1),
+            _ => 1,
+        }
+    }
+    /// the steps this assertion covers
+    pub fn steps(&self, n: usize) -> Vec<usize> {
+        match self.kind {
+            AssertKind::Single => vec![self.first],
+            _ => (0..n / self.stride.max(1)).map(|k| self.first + k * self.stride).collect(),
+        }
+    }
+    fn write(&self, o: &mut String) {
+        match self.kind {
+            AssertKind::Single => o.push_str(&format!("s{}.{}", self.column, self.first)),
+            AssertKind::Periodic => o.push_str(&format!("p{}.{}.{}", self.column, self.first, self.stride)),
+            AssertKind::Sequence => o.push_str(&format!("q{}.{}.{}", self.column, self.first, self.stride)),
+        }
+    }
+    fn parse(s: &str) -> Result<Self, String> {
+        if s.is_empty() {
+            return Err("empty assertion".into());
+        }
+        let nums: Result<Vec<usize>, _> = s[1..].split('.').map(|x| x.parse::<usize>()).collect();
+        let nums = nums.map_err(|_| format!("bad assertion `{}`", s))?;
+        match (s.as_bytes()[0], nums.len()) {
+            (b's', 2) => Ok(AssertDesc::single(nums[0], nums[1])),
+            (b'p', 3) => Ok(AssertDesc::periodic(nums[0], nums[1], nums[2])),
+            (b'q', 3) => Ok(AssertDesc::sequence(nums[0], nums[1], nums[2])),
+            _ => Err(format!("bad assertion `{}`", s)),
+        }
+    }
+    fn to_lib<E: FieldElement>(&self, values: Vec<E>) -> Assertion<E> {
+        match self.kind {
+            AssertKind::Single => Assertion::single(self.column, self.first, values[0]),
+            AssertKind::Periodic => Assertion::periodic(self.column, self.first, self.stride, values[0]),
+            AssertKind::Sequence => Assertion::sequence(self.column, self.first, self.stride, values),
+        }
+    }
+}
+
+/// how the trace generator fills a main column
+#[derive(Clone, Debug, PartialEq, Eq)]
+pub enum ColGen {
+    Rand,
+    Const(Option<u128>),
+    LowDeg(usize),
+    Counter,
+    Cyc(usize),
+    Step { init: Option<u128>, expr: Expr },
+    Fn(Expr),
+}
+
+/// how the prover fills an auxiliary column
+#[derive(Clone, Debug, PartialEq, Eq)]
+pub enum AuxGen {
+    Fn(Expr),
+    Acc { init: Expr, step: Expr },
+}
+
+#[derive(Clone, Debug, PartialEq, Eq)]
+pub struct AuxAssertDesc {
+    pub a: AssertDesc,
+    /// asserted value as a function of the aux random elements and the public inputs
+    pub value: Expr,
+}
+
+#[derive(Clone, Debug, PartialEq, Eq)]
+pub struct AuxDesc {
+    /// number of auxiliary columns including the Lagrange kernel column (which is the last one)
+    pub width: usize,
+    pub num_rands: usize,
+    pub lagrange: bool,
+    /// generation rules of the columns other than the Lagrange kernel column
+    pub cols: Vec<AuxGen>,
+    pub constraints: Vec<Constraint>,
+    pub assertions: Vec<AuxAssertDesc>,
+}
+
+#[derive(Clone, Debug, PartialEq, Eq)]
+pub struct AirDesc {
+    pub width: usize,
+    pub trace_len: usize,
+    pub exemptions: usize,
+    /// rows after the last enforced transition are filled with random values
+    pub tail_junk: bool,
+    pub periodic: Vec<Vec<u128>>,
+    pub cols: Vec<ColGen>,
+    pub constraints: Vec<Constraint>,
+    pub assertions: Vec<AssertDesc>,
+    pub aux: Option<AuxDesc>,
+}
+
+fn write_constraints(o: &mut String, cs: &[Constraint]) {
+    for (i, c) in cs.iter().enumerate() {
+        if i > 0 {
+            o.push(',');
+        }
+        o.push_str(&c.degree.base.to_string());
+        for cy in &c.degree.cycles {
+            o.push_str(&format!(".{}", cy));
+        }
+        o.push(':');
+        c.expr.write(o);
+    }
+}
+
+fn parse_constraints(s: &str) -> Result<Vec<Constraint>, String> {
+    let mut v = vec![];
+    for item in s.split(',').filter(|x| !x.is_empty()) {
+        let (d, e) = item.split_once(':').ok_or(format!("bad constraint `{}`", item))?;
+        let nums: Result<Vec<usize>, _> = d.split('.').map(|x| x.parse::<usize>()).collect();
+        let nums = nums.map_err(|_| format!("bad degree `{}`", d))?;
+        if nums.is_empty() {
+            return Err("empty degree".into());
+        }
+        v.push(Constraint { degree: Degree { base: nums[0], cycles: nums[1..].to_vec() }, expr: Expr::parse(e)? });
+    }
+    Ok(v)
+}
+
+impl AirDesc {
+    // ------------------------------------------------------------------------------ text form
+    pub fn to_line(&self) -> String {
+        let mut o = format!("w={};l={};e={};j={}", self.width, self.trace_len, self.exemptions, self.tail_junk as u8);
+        o.push_str(";p=");
+        for (i, p) in self.periodic.iter().enumerate() {
+            if i > 0 {
+                o.push('|');
+            }
+            o.push_str(&p.iter().map(|v| v.to_string()).collect::<Vec<_>>().join("."));
+        }
+        o.push_str(";g=");
+        for (i, g) in self.cols.iter().enumerate() {
+            if i > 0 {
+                o.push(',');
+            }
+            match g {
+                ColGen::Rand => o.push('R'),
+                ColGen::Const(Some(v)) => o.push_str(&format!("K{}", v)),
+                ColGen::Const(None) => o.push_str("K?"),
+                ColGen::LowDeg(d) => o.push_str(&format!("L{}", d)),
+                ColGen::Counter => o.push('I'),
+                ColGen::Cyc(c) => o.push_str(&format!("Y{}", c)),
+                ColGen::Step { init, expr } => {
+                    match init {
+                        Some(v) => o.push_str(&format!("S{}:", v)),
+                        None => o.push_str("S?:"),
+                    }
+                    expr.write(&mut o);
+                },
+                ColGen::Fn(e) => {
+                    o.push_str("F:");
+                    e.write(&mut o);
+                },
+            }
+        }
+        o.push_str(";t=");
+        write_constraints(&mut o, &self.constraints);
+        o.push_str(";a=");
+        for (i, a) in self.assertions.iter().enumerate() {
+            if i > 0 {
+                o.push(',');
+            }
+            a.write(&mut o);
+        }
+        if let Some(x) = &self.aux {
+            o.push_str(&format!(";x={}.{}.{}", x.width, x.num_rands, x.lagrange as u8));
+            o.push_str(";h=");
+            for (i, g) in x.cols.iter().enumerate() {
+                if i > 0 {
+                    o.push(',');
+                }
+                match g {
+                    AuxGen::Fn(e) => {
+                        o.push_str("F:");
+                        e.write(&mut o);
+                    },
+                    AuxGen::Acc { init, step } => {
+                        o.push('A');
+                        init.write(&mut o);
+                        o.push(':');
+                        step.write(&mut o);
+                    },
+                }
+            }
+            o.push_str(";u=");
+            write_constraints(&mut o, &x.constraints);
+            o.push_str(";b=");
+            for (i, a) in x.assertions.iter().enumerate() {
+                if i > 0 {
+                    o.push(',');
+                }
+                a.a.write(&mut o);
+                o.push('=');
+                a.value.write(&mut o);
+            }
+        }
+        o
+    }
+
+    /// parse and validate
+    pub fn parse(line: &str) -> Result<AirDesc, String> {
+        let mut d = AirDesc {
+            width: 0,
+            trace_len: 0,
+            exemptions: 1,
+            tail_junk: false,
+            periodic: vec![],
+            cols: vec![],
+            constraints: vec![],
+            assertions: vec![],
+            aux: None,
+        };
+        let mut aux = AuxDesc { width: 0, num_rands: 0, lagrange: false, cols: vec![], constraints: vec![], assertions: vec![] };
+        let mut has_aux = false;
+        let num = |s: &str| s.parse::<usize>().map_err(|_| format!("bad number `{}`", s));
+        for field in line.split(';').filter(|f| !f.is_empty()) {
+            let (k, v) = field.split_once('=').ok_or(format!("bad field `{}`", field))?;
+            match k {
+                "w" => d.width = num(v)?,
+                "l" => d.trace_len = num(v)?,
+                "e" => d.exemptions = num(v)?,
+                "j" => d.tail_junk = num(v)? != 0,
+                "p" => {
+                    for col in v.split('|').filter(|c| !c.is_empty()) {
+                        let vals: Result<Vec<u128>, _> = col.split('.').map(|x| x.parse::<u128>()).collect();
+                        d.periodic.push(vals.map_err(|_| format!("bad periodic column `{}`", col))?);
+                    }
+                },
+                "g" => {
+                    for item in v.split(',').filter(|x| !x.is_empty()) {
+                        let rest = &item[1..];
+                        d.cols.push(match item.as_bytes()[0] {
+                            b'R' if rest.is_empty() => ColGen::Rand,
+                            b'I' if rest.is_empty() => ColGen::Counter,
+                            b'K' if rest == "?" => ColGen::Const(None),
+                            b'K' => ColGen::Const(Some(rest.parse::<u128>().map_err(|_| format!("bad colgen `{}`", item))?)),
+                            b'L' => ColGen::LowDeg(num(rest)?),
+                            b'Y' => ColGen::Cyc(num(rest)?),
+                            b'S' => {
+                                let (i, e) = rest.split_once(':').ok_or(format!("bad colgen `{}`", item))?;
+                                let init = if i == "?" {
+                                    None
+                                } else {
+                                    Some(i.parse::<u128>().map_err(|_| format!("bad colgen `{}`", item))?)
+                                };
+                                ColGen::Step { init, expr: Expr::parse(e)? }
+                            },
+                            b'F' if rest.starts_with(':') => ColGen::Fn(Expr::parse(&rest[1..])?),
+                            _ => return Err(format!("bad colgen `{}`", item)),
+                        });
+                    }
+                },
+                "t" => d.constraints = parse_constraints(v)?,
+                "a" => {
+                    for item in v.split(',').filter(|x| !x.is_empty()) {
+                        d.assertions.push(AssertDesc::parse(item)?);
+                    }
+                },
+                "x" => {
+                    let nums: Result<Vec<usize>, _> = v.split('.').map(num).collect();
+                    let nums = nums?;
+                    if nums.len() != 3 {
+                        return Err("bad aux header".into());
+                    }
+                    has_aux = true;
+                    aux.width = nums[0];
+                    aux.num_rands = nums[1];
+                    aux.lagrange = nums[2] != 0;
+                },
+                "h" => {
+                    for item in v.split(',').filter(|x| !x.is_empty()) {
+                        let rest = &item[1..];
+                        aux.cols.push(match item.as_bytes()[0] {
+                            b'F' if rest.starts_with(':') => AuxGen::Fn(Expr::parse(&rest[1..])?),
+                            b'A' => {
+                                let (i, e) = rest.split_once(':').ok_or(format!("bad auxgen `{}`", item))?;
+                                AuxGen::Acc { init: Expr::parse(i)?, step: Expr::parse(e)? }
+                            },
+                            _ => return Err(format!("bad auxgen `{}`", item)),
+                        });
+                    }
+                },
+                "u" => aux.constraints = parse_constraints(v)?,
+                "b" => {
+                    for item in v.split(',').filter(|x| !x.is_empty()) {
+                        let (a, e) = item.split_once('=').ok_or(format!("bad aux assertion `{}`", item))?;
+                        aux.assertions.push(AuxAssertDesc { a: AssertDesc::parse(a)?, value: Expr::parse(e)? });
+                    }
+                },
+                _ => return Err(format!("unknown field `{}`", k)),
+            }
+        }
+        if has_aux {
+            d.aux = Some(aux);
+        }
+        d.validate()?;
+        Ok(d)
+    }
+
+    // ------------------------------------------------------------------------------ derived data
+    pub fn cycles(&self) -> Vec<usize> {
+        self.periodic.iter().map(|p| p.len()).collect()
+    }
+    pub fn aux_width(&self) -> usize {
+        self.aux.as_ref().map(|a| a.width).unwrap_or(0)
+    }
+    pub fn total_width(&self) -> usize {
+        self.width + self.aux_width()
+    }
+    pub fn has_lagrange(&self) -> bool {
+        self.aux.as_ref().map(|a| a.lagrange).unwrap_or(false)
+    }
+    /// number of public inputs (asserted values of the main segment)
+    pub fn num_pub_inputs(&self) -> usize {
+        self.assertions.iter().map(|a| a.num_values(self.trace_len)).sum()
+    }
+    pub fn all_constraints(&self) -> impl Iterator<Item = &Constraint> {
+        self.constraints.iter().chain(self.aux.iter().flat_map(|a| a.constraints.iter()))
+    }
+    /// `ce_blowup_factor` the library derives from the declared degrees = the smallest admissible
+    /// blowup factor
+    pub fn min_blowup(&self) -> usize {
+        self.all_constraints().map(|c| c.degree.min_blowup()).max().unwrap_or(2)
+    }
+    /// largest number of exemptions `AirContext::set_num_transition_exemptions` accepts
+    pub fn max_exemptions(&self) -> usize {
+        let n = self.trace_len;
+        let ce = n * self.min_blowup();
+        let mut m = n / 2 + 1;
+        for c in self.all_constraints() {
+            let lim = (ce - 1 + n).saturating_sub(c.degree.eval_degree(n));
+            m = m.min(lim);
+        }
+        m
+    }
+    /// the degree an AIR author would declare for `expr`
+    pub fn natural_degree(&self, expr: &Expr) -> Degree {
+        expr.degree(&self.cycles(), self.trace_len)
+    }
+
+    // ------------------------------------------------------------------------------ validation
+    /// shape checks: everything the library's constructors would assert, plus index ranges
+    pub fn validate(&self) -> Result<(), String> {
+        let n = self.trace_len;
+        if self.width == 0 || self.total_width() > 255 {
+            return Err("width out of range".into());
+        }
+        if n < 8 || !n.is_power_of_two() || n > (1 << 20) {
+            return Err("trace length must be a power of two in 8..2^20".into());
+        }
+        if self.cols.len() != self.width {
+            return Err("one colgen per main column expected".into());
+        }
+        for p in &self.periodic {
+            if p.len() < 2 || !p.len().is_power_of_two() || p.len() > n {
+                return Err("bad periodic column length".into());
+            }
+        }
+        if self.constraints.is_empty() || self.assertions.is_empty() {
+            return Err("at least one main constraint and one main assertion required".into());
+        }
+        let np = self.periodic.len();
+        let w = self.width;
+        let (aw, nr) = match &self.aux {
+            Some(a) => (a.width, a.num_rands),
+            None => (0, 0),
+        };
+        let npub = self.num_pub_inputs();
+        // allowed atoms per context
+        let check = |e: &Expr, main_only: bool, allow_div: bool, allow_pub: bool| -> Result<(), String> {
+            let mut err = None;
+            e.walk(&mut |x| {
+                let bad = match x {
+                    Expr::Cur(i) | Expr::Nxt(i) => *i >= w,
+                    Expr::Per(i) => *i >= np,
+                    Expr::AuxCur(i) | Expr::AuxNxt(i) => main_only || *i >= aw,
+                    Expr::Rand(i) => main_only || *i >= nr,
+                    Expr::Pub(i) | Expr::PubSeq(i) => !allow_pub || *i >= npub,
+                    Expr::Div(_, _) => !allow_div,
+                    _ => false,
+                };
+                if bad && err.is_none() {
+                    err = Some(format!("atom `{}` not allowed here or out of range", x.to_text()));
+                }
+            });
+            err.map(Err).unwrap_or(Ok(()))
+        };
+        let check_deg = |c: &Constraint| -> Result<(), String> {
+            if c.degree.base == 0 {
+                return Err("declared base degree must be at least 1".into());
+            }
+            for cy in &c.degree.cycles {
+                if *cy < 2 || !cy.is_power_of_two() {
+                    return Err("bad cycle in degree".into());
+                }
+            }
+            Ok(())
+        };
+        for c in &self.constraints {
+            check_deg(c)?;
+            check(&c.expr, true, false, false)?;
+        }
+        for (j, g) in self.cols.iter().enumerate() {
+            match g {
+                ColGen::Step { expr, .. } => {
+                    check(expr, true, true, false)?;
+                    let mut ok = true;
+                    expr.walk(&mut |x| {
+                        if let Expr::Nxt(k) = x {
+                            ok &= *k < j;
+                        }
+                    });
+                    if !ok {
+                        return Err("step rule may use next cells of lower columns only".into());
+                    }
+                },
+                ColGen::Fn(expr) => {
+                    check(expr, true, true, false)?;
+                    let mut ok = true;
+                    expr.walk(&mut |x| match x {
+                        Expr::Cur(k) => ok &= *k < j,
+                        Expr::Nxt(_) => ok = false,
+                        _ => {},
+                    });
+                    if !ok {
+                        return Err("fn rule may use current cells of lower columns only".into());
+                    }
+                },
+                ColGen::LowDeg(d) if *d >= n => return Err("low-degree column: degree too large".into()),
+                ColGen::Cyc(c) if *c < 1 || !c.is_power_of_two() || *c > n => return Err("bad cycle column".into()),
+                _ => {},
+            }
+        }
+        let check_assert = |a: &AssertDesc, width: usize| -> Result<(), String> {
+            if a.column >= width {
+                return Err("assertion column out of range".into());
+            }
+            match a.kind {
+                AssertKind::Single => {
+                    if a.first >= n {
+                        return Err("assertion step out of range".into());
+                    }
+                },
+                _ => {
+                    if a.stride < 2 || !a.stride.is_power_of_two() || a.stride > n || a.first >= a.stride {
+                        return Err("bad assertion stride".into());
+                    }
+                },
+            }
+            Ok(())
+        };
+        let overlap = |xs: &[&AssertDesc]| -> bool {
+            let mut seen = std::collections::HashSet::new();
+            for a in xs {
+                for s in a.steps(n) {
+                    if !seen.insert((a.column, s)) {
+                        return true;
+                    }
+                }
+            }
+            false
+        };
+        for a in &self.assertions {
+            check_assert(a, w)?;
+        }
+        if overlap(&self.assertions.iter().collect::<Vec<_>>()) {
+            return Err("overlapping main assertions".into());
+        }
+        if let Some(x) = &self.aux {
+            if x.width == 0 || x.num_rands > 255 {
+                return Err("bad aux header".into());
+            }
+            let regular = x.width - x.lagrange as usize;
+            if x.cols.len() != regular {
+                return Err("one auxgen per regular aux column expected".into());
+            }
+            if x.constraints.is_empty() || x.assertions.is_empty() {
+                return Err("at least one aux constraint and one aux assertion required".into());
+            }
+            for c in &x.constraints {
+                check_deg(c)?;
+                check(&c.expr, false, false, false)?;
+            }
+            for (j, g) in x.cols.iter().enumerate() {
+                let (exprs, acc): (Vec<&Expr>, bool) = match g {
+                    AuxGen::Fn(e) => (vec![e], false),
+                    AuxGen::Acc { init, step } => (vec![init, step], true),
+                };
+                for (k, e) in exprs.iter().enumerate() {
+                    check(e, false, true, false)?;
+                    let mut ok = true;
+                    e.walk(&mut |t| match t {
+                        Expr::AuxCur(i) => ok &= if acc && k == 1 { *i < regular } else { *i < j },
+                        Expr::AuxNxt(i) => ok &= acc && k == 1 && *i < j,
+                        Expr::Cur(_) | Expr::Nxt(_) | Expr::Per(_) => ok &= !(acc && k == 0),
+                        _ => {},
+                    });
+                    if !ok {
+                        return Err("aux generation rule uses a cell that is not available".into());
+                    }
+                }
+            }
+            for a in &x.assertions {
+                check_assert(&a.a, regular)?;
+                check(&a.value, false, false, true)?;
+                let mut ok = true;
+                a.value.walk(&mut |t| {
+                    if matches!(t, Expr::Cur(_) | Expr::Nxt(_) | Expr::Per(_) | Expr::AuxCur(_) | Expr::AuxNxt(_)) {
+                        ok = false;
+                    }
+                });
+                if !ok {
+                    return Err("aux assertion value may use r*, v*, w*, k* only".into());
+                }
+            }
+            if overlap(&x.assertions.iter().map(|a| &a.a).collect::<Vec<_>>()) {
+                return Err("overlapping aux assertions".into());
+            }
+        }
+        if self.exemptions == 0 || self.exemptions > self.max_exemptions() {
+            return Err(format!("exemptions must be in 1..={}", self.max_exemptions()));
+        }
+        Ok(())
+    }
+}
+
+// ================================================================================================
+// AIR
+// ================================================================================================
+/// public inputs of the generic AIR: the description (the "program", known to both sides) and the
+/// asserted values of the main segment in assertion order; only the values are absorbed by the coin
+#[derive(Clone, Debug)]
+pub struct GenPub<B: GField> {
+    pub desc: Arc<AirDesc>,
+    pub values: Vec<B>,
+}
+
+impl<B: GField> ToElements<B> for GenPub<B> {
+    fn to_elements(&self) -> Vec<B> {
+        self.values.clone()
+    }
+}
+
+/// the GKR "proof" of the dummy Lagrange-kernel set-up (as in the repository's own test AIR): the
+/// number of random elements to draw
+#[derive(Debug, Clone, Default)]
+pub struct GenGkrVerifier;
+
+impl GkrVerifier for GenGkrVerifier {
+    type GkrProof = usize;
+    type Error = String;
+
+    fn verify<E, Hasher>(
+        &self,
+        gkr_proof: usize,
+        public_coin: &mut impl RandomCoin<BaseField = E::BaseField, Hasher = Hasher>,
+    ) -> Result<LagrangeKernelRandElements<E>, Self::Error>
+    where
+        E: FieldElement,
+        Hasher: ElementHasher<BaseField = E::BaseField>,
+    {
+        if gkr_proof > 64 {
+            return Err("gkr proof out of range".into());
+        }
+        let mut rand_elements = Vec::with_capacity(gkr_proof);
+        for _ in 0..gkr_proof {
+            rand_elements.push(public_coin.draw().map_err(|e| format!("{:?}", e))?);
+        }
+        Ok(LagrangeKernelRandElements::new(rand_elements))
+    }
+}
+
+pub struct GenericAir<B: GField> {
+    context: AirContext<B>,
+    desc: Arc<AirDesc>,
+    values: Vec<B>,
+    periodic: Vec<Vec<B>>,
+}
+
+impl<B: GField> GenericAir<B> {
+    pub fn desc(&self) -> &AirDesc {
+        &self.desc
+    }
+}
+
+/// the `TraceInfo` of a description
+pub fn trace_info(desc: &AirDesc) -> TraceInfo {
+    match &desc.aux {
+        None => TraceInfo::new(desc.width, desc.trace_len),
+        Some(x) => TraceInfo::new_multi_segment(desc.width, x.width, x.num_rands, desc.trace_len, vec![]),
+    }
+}
+
+impl<B: GField> Air for GenericAir<B> {
+    type BaseField = B;
+    type PublicInputs = GenPub<B>;
+    type GkrProof = usize;
+    type GkrVerifier = GenGkrVerifier;
+
+    /// the trace shape comes from `trace_info` (the proof's, on the verifier side); everything else
+    /// from the description in the public inputs
+    fn new(trace_info: TraceInfo, pub_inputs: GenPub<B>, options: ProofOptions) -> Self {
+        let desc = pub_inputs.desc.clone();
+        let main_degrees = desc.constraints.iter().map(|c| c.degree.to_lib()).collect();
+        let context = match &desc.aux {
+            None => AirContext::new(trace_info, main_degrees, desc.assertions.len(), options),
+            Some(x) => AirContext::new_multi_segment(
+                trace_info,
+                main_degrees,
+                x.constraints.iter().map(|c| c.degree.to_lib()).collect(),
+                desc.assertions.len(),
+                x.assertions.len(),
+                if x.lagrange { Some(x.width - 1) } else { None },
+                options,
+            ),
+        };
+        let context = if desc.exemptions != 1 { context.set_num_transition_exemptions(desc.exemptions) } else { context };
+        let periodic = desc.periodic.iter().map(|p| p.iter().map(|v| B::from_word(*v % B::MOD)).collect()).collect();
+        GenericAir { context, desc, values: pub_inputs.values, periodic }
+    }
+
+    fn context(&self) -> &AirContext<B> {
+        &self.context
+    }
+
+    fn evaluate_transition<E: FieldElement<BaseField = B>>(
+        &self,
+        frame: &EvaluationFrame<E>,
+        periodic_values: &[E],
+        result: &mut [E],
+    ) {
+        let env = Env::<B, E, E> {
+            cur: frame.current(),
+            nxt: frame.next(),
+            per: periodic_values,
+            acur: &[],
+            anxt: &[],
+            rand: &[],
+            pubs: &[],
+            seq: 0,
+        };
+        for (r, c) in result.iter_mut().zip(self.desc.constraints.iter()) {
+            *r = c.expr.eval(&env);
+        }
+    }
+
+    /// missing public values are read as zero, surplus ones are ignored (so that a verifier given
+    /// public inputs of the wrong length rejects instead of panicking)
+    fn get_assertions(&self) -> Vec<Assertion<B>> {
+        let n = self.desc.trace_len;
+        let mut pos = 0;
+        let mut out = vec![];
+        for a in &self.desc.assertions {
+            let k = a.num_values(n);
+            let vals: Vec<B> = (0..k).map(|i| self.values.get(pos + i).copied().unwrap_or(B::ZERO)).collect();
+            pos += k;
+            out.push(a.to_lib(vals));
+        }
+        out
+    }
+
+    fn evaluate_aux_transition<F, E>(
+        &self,
+        main_frame: &EvaluationFrame<F>,
+        aux_frame: &EvaluationFrame<E>,
+        periodic_values: &[F],
+        aux_rand_elements: &[E],
+        result: &mut [E],
+    ) where
+        F: FieldElement<BaseField = B>,
+        E: FieldElement<BaseField = B> + ExtensionOf<F>,
+    {
+        let x = self.desc.aux.as_ref().expect("aux segment");
+        let env = Env::<B, F, E> {
+            cur: main_frame.current(),
+            nxt: main_frame.next(),
+            per: periodic_values,
+            acur: aux_frame.current(),
+            anxt: aux_frame.next(),
+            rand: aux_rand_elements,
+            pubs: &[],
+            seq: 0,
+        };
+        for (r, c) in result.iter_mut().zip(x.constraints.iter()) {
+            *r = c.expr.eval(&env);
+        }
+    }
+
+    fn get_aux_assertions<E: FieldElement<BaseField = B>>(&self, aux_rand_elements: &[E]) -> Vec<Assertion<E>> {
+        match &self.desc.aux {
+            None => vec![],
+            Some(x) => aux_assertions::<B, E>(&self.desc, x, aux_rand_elements, &self.values),
+        }
+    }
+
+    fn get_periodic_column_values(&self) -> Vec<Vec<B>> {
+        self.periodic.clone()
+    }
+
+    fn get_auxiliary_proof_verifier<E: FieldElement<BaseField = B>>(&self) -> GenGkrVerifier {
+        GenGkrVerifier
+    }
+}
+
+/// asserted values of the auxiliary segment for the given randomness and public inputs
+pub fn aux_assertions<B: GField, E: FieldElement<BaseField = B>>(
+    desc: &AirDesc,
+    x: &AuxDesc,
+    rands: &[E],
+    pubs: &[B],
+) -> Vec<Assertion<E>> {
+    let n = desc.trace_len;
+    x.assertions
+        .iter()
+        .map(|a| {
+            let k = a.a.num_values(n);
+            let vals: Vec<E> = (0..k)
+                .map(|j| {
+                    let env = Env::<B, B, E> { cur: &[], nxt: &[], per: &[], acur: &[], anxt: &[], rand: rands, pubs, seq: j };
+                    a.value.eval(&env)
+                })
+                .collect();
+            a.a.to_lib(vals)
+        })
+        .collect()
+}
+
+// ================================================================================================
+// TRACE
+// ================================================================================================
+pub struct GenTrace<B: GField> {
+    info: TraceInfo,
+    main: ColMatrix<B>,
+}
+
+impl<B: GField> GenTrace<B> {
+    pub fn new(desc: &AirDesc, data: &TraceData) -> Self {
+        assert_eq!(data.len(), desc.width, "trace width differs from the description");
+        let cols: Vec<Vec<B>> = data
+            .iter()
+            .map(|c| {
+                assert_eq!(c.len(), desc.trace_len, "trace length differs from the description");
+                c.iter().map(|v| B::from_word(*v % B::MOD)).collect()
+            })
+            .collect();
+        GenTrace { info: trace_info(desc), main: ColMatrix::new(cols) }
+    }
+}
+
+impl<B: GField> Trace for GenTrace<B> {
+    type BaseField = B;
+
+    fn info(&self) -> &TraceInfo {
+        &self.info
+    }
+
+    fn main_segment(&self) -> &ColMatrix<B> {
+        &self.main
+    }
+
+    fn read_main_frame(&self, row_idx: usize, frame: &mut EvaluationFrame<B>) {
+        let next = (row_idx + 1) % self.main.num_rows();
+        self.main.read_row_into(row_idx, frame.current_mut());
+        self.main.read_row_into(next, frame.next_mut());
+    }
+}
+
+// ================================================================================================
+// PROVER
+// ================================================================================================
+pub struct GenericProver<B: GField, H, R = DefaultRandomCoin<H>> {
+    desc: Arc<AirDesc>,
+    options: ProofOptions,
+    /// verdict of the reference predicate on the auxiliary segment built during the last `prove`
+    pub aux_check: Mutex<Option<Result<(), Violation>>>,
+    _p: PhantomData<(B, H, R)>,
+}
+
+impl<B: GField, H, R> GenericProver<B, H, R> {
+    pub fn new(desc: Arc<AirDesc>, options: ProofOptions) -> Self {
+        GenericProver { desc, options, aux_check: Mutex::new(None), _p: PhantomData }
+    }
+}
+
+impl<B, H, R> Prover for GenericProver<B, H, R>
+where
+    B: GField,
+    H: ElementHasher<BaseField = B> + Send + Sync,
+    R: RandomCoin<BaseField = B, Hasher = H> + Send + Sync,
+{
+    type BaseField = B;
+    type Air = GenericAir<B>;
+    type Trace = GenTrace<B>;
+    type HashFn = H;
+    type RandomCoin = R;
+    type TraceLde<E: FieldElement<BaseField = B>> = DefaultTraceLde<E, H>;
+    type ConstraintEvaluator<'a, E: FieldElement<BaseField = B>> = DefaultConstraintEvaluator<'a, GenericAir<B>, E>;
+
+    fn get_pub_inputs(&self, trace: &GenTrace<B>) -> GenPub<B> {
+        let cols: Vec<&[B]> = (0..trace.main.num_cols()).map(|c| trace.main.get_column(c)).collect();
+        GenPub { desc: self.desc.clone(), values: asserted_values(&self.desc, &cols) }
+    }
+
+    fn options(&self) -> &ProofOptions {
+        &self.options
+    }
+
+    fn new_trace_lde<E: FieldElement<BaseField = B>>(
+        &self,
+        trace_info: &TraceInfo,
+        main_trace: &ColMatrix<B>,
+        domain: &StarkDomain<B>,
+    ) -> (Self::TraceLde<E>, TracePolyTable<E>) {
+        DefaultTraceLde::new(trace_info, main_trace, domain)
+    }
+
+    fn new_evaluator<'a, E: FieldElement<BaseField = B>>(
+        &self,
+        air: &'a GenericAir<B>,
+        aux_rand_elements: Option<AuxRandElements<E>>,
+        composition_coefficients: ConstraintCompositionCoefficients<E>,
+    ) -> Self::ConstraintEvaluator<'a, E> {
+        DefaultConstraintEvaluator::new(air, aux_rand_elements, composition_coefficients)
+    }
+
+    fn generate_gkr_proof<E>(
+        &self,
+        main_trace: &GenTrace<B>,
+        public_coin: &mut R,
+    ) -> (usize, LagrangeKernelRandElements<E>)
+    where
+        E: FieldElement<BaseField = B>,
+    {
+        let log_n = main_trace.main.num_rows().ilog2() as usize;
+        let mut r = Vec::with_capacity(log_n);
+        for _ in 0..log_n {
+            r.push(public_coin.draw().expect("failed to draw a Lagrange kernel random element"));
+        }
+        (log_n, LagrangeKernelRandElements::new(r))
+    }
+
+    fn build_aux_trace<E>(&self, main_trace: &GenTrace<B>, aux_rand_elements: &AuxRandElements<E>) -> ColMatrix<E>
+    where
+        E: FieldElement<BaseField = B>,
+    {
+        let x = self.desc.aux.as_ref().expect("aux segment");
+        let main: Vec<&[B]> = (0..main_trace.main.num_cols()).map(|c| main_trace.main.get_column(c)).collect();
+        let rands = aux_rand_elements.rand_elements();
+        let lag: Vec<E> = aux_rand_elements.lagrange().map(|l| l.iter().copied().collect()).unwrap_or_default();
+        let cols = build_aux_columns::<B, E>(&self.desc, x, &main, rands, &lag);
+        let pubs = asserted_values(&self.desc, &main);
+        let verdict = check_aux::<B, E>(&self.desc, &main, &cols, rands, &lag, &pubs);
+        *self.aux_check.lock().unwrap() = Some(verdict);
+        ColMatrix::new(cols)
+    }
+}
+
+/// the asserted values (= public inputs) read off a main segment
+pub fn asserted_values<B: GField>(desc: &AirDesc, cols: &[&[B]]) -> Vec<B> {
+    let n = desc.trace_len;
+    let mut out = vec![];
+    for a in &desc.assertions {
+        match a.kind {
+            AssertKind::Sequence => {
+                for s in a.steps(n) {
+                    out.push(cols[a.column][s]);
+                }
+            },
+            _ => out.push(cols[a.column][a.first]),
+        }
+    }
+    out
+}
+
+fn periodic_row<B: GField>(desc: &AirDesc, step: usize) -> Vec<B> {
+    desc.periodic.iter().map(|p| B::from_word(p[step % p.len()] % B::MOD)).collect()
+}
+
+/// the auxiliary columns (including the Lagrange kernel column, if any) for given randomness
+pub fn build_aux_columns<B: GField, E: FieldElement<BaseField = B>>(
+    desc: &AirDesc,
+    x: &AuxDesc,
+    main: &[&[B]],
+    rands: &[E],
+    lagrange_rands: &[E],
+) -> Vec<Vec<E>> {
+    let n = desc.trace_len;
+    let regular = x.cols.len();
+    let mut cols: Vec<Vec<E>> = vec![vec![E::ZERO; n]; regular];
+    let row = |i: usize| -> Vec<B> { main.iter().map(|c| c[i]).collect() };
+    for r in 0..n {
+        let cur = row(r);
+        let nxt = row((r + 1) % n);
+        let per: Vec<B> = periodic_row(desc, r);
+        let (prev, pper) = if r > 0 { (row(r - 1), periodic_row::<B>(desc, r - 1)) } else { (vec![], vec![]) };
+        for (j, g) in x.cols.iter().enumerate() {
+            let here: Vec<E> = cols.iter().map(|c| c[r]).collect();
+            let v = match g {
+                AuxGen::Fn(e) => {
+                    let env = Env::<B, B, E> { cur: &cur, nxt: &nxt, per: &per, acur: &here, anxt: &[], rand: rands, pubs: &[], seq: 0 };
+                    e.eval(&env)
+                },
+                AuxGen::Acc { init, step } => {
+                    if r == 0 {
+                        let env = Env::<B, B, E> { cur: &[], nxt: &[], per: &[], acur: &[], anxt: &[], rand: rands, pubs: &[], seq: 0 };
+                        init.eval(&env)
+                    } else {
+                        let before: Vec<E> = cols.iter().map(|c| c[r - 1]).collect();
+                        let env = Env::<B, B, E> {
+                            cur: &prev,
+                            nxt: &cur,
+                            per: &pper,
+                            acur: &before,
+                            anxt: &here,
+                            rand: rands,
+                            pubs: &[],
+                            seq: 0,
+                        };
+                        step.eval(&env)
+                    }
+                },
+            };
+            cols[j][r] = v;
+        }
+    }
+    if x.lagrange {
+        let mut col = Vec::with_capacity(n);
+        for i in 0..n {
+            let mut v = E::ONE;
+            for (bit, r) in lagrange_rands.iter().enumerate() {
+                if i & (1 << bit) == 0 {
+                    v *= E::ONE - *r;
+                } else {
+                    v *= *r;
+                }
+            }
+            col.push(v);
+        }
+        cols.push(col);
+    }
+    cols
+}
+
+// ================================================================================================
+// TRACE GENERATOR
+// ================================================================================================
+fn rand_elem<B: GField>(rng: &mut Rng) -> B {
+    B::from_word(rng.u128() % B::MOD)
+}
+
+/// a main segment that satisfies the description's generation rules (hence its constraints, when
+/// the constraints are the ones the rules imply); all randomness derives from `seed`
+pub fn gen_trace_in<B: GField>(desc: &AirDesc, seed: u64) -> Vec<Vec<B>> {
+    let n = desc.trace_len;
+    let w = desc.width;
+    let mut rng = Rng::new(seed ^ 0x7ace_7ace_7ace_7ace);
+    let mut cols: Vec<Vec<B>> = vec![vec![B::ZERO; n]; w];
+    // free columns first
+    let g = B::get_root_of_unity(n.ilog2());
+    for (j, c) in desc.cols.iter().enumerate() {
+        match c {
+            ColGen::Rand => {
+                for i in 0..n {
+                    cols[j][i] = rand_elem(&mut rng);
+                }
+            },
+            ColGen::Const(v) => {
+                let v = match v {
+                    Some(v) => B::from_word(*v % B::MOD),
+                    None => rand_elem(&mut rng),
+                };
+                for i in 0..n {
+                    cols[j][i] = v;
+                }
+            },
+            ColGen::LowDeg(d) => {
+                let coef: Vec<B> = (0..=*d).map(|_| rand_elem::<B>(&mut rng)).collect();
+                let mut x = B::ONE;
+                for i in 0..n {
+                    let mut acc = B::ZERO;
+                    for c in coef.iter().rev() {
+                        acc = acc * x + *c;
+                    }
+                    cols[j][i] = acc;
+                    x *= g;
+                }
+            },
+            ColGen::Counter => {
+                for i in 0..n {
+                    cols[j][i] = B::from_word(i as u128);
+                }
+            },
+            ColGen::Cyc(c) => {
+                let vals: Vec<B> = (0..*c).map(|_| rand_elem::<B>(&mut rng)).collect();
+                for i in 0..n {
+                    cols[j][i] = vals[i % c];
+                }
+            },
+            ColGen::Step { init, .. } => {
+                cols[j][0] = match init {
+                    Some(v) => B::from_word(*v % B::MOD),
+                    None => rand_elem(&mut rng),
+                };
+            },
+            ColGen::Fn(_) => {},
+        }
+    }
+    // rows in order; within a row, columns in index order
+    let last_rule_row = if desc.tail_junk { n - desc.exemptions } else { n - 1 };
+    for r in 0..n {
+        let per: Vec<B> = periodic_row(desc, r);
+        let (prev, pper): (Vec<B>, Vec<B>) =
+            if r > 0 { (cols.iter().map(|c| c[r - 1]).collect(), periodic_row(desc, r - 1)) } else { (vec![], vec![]) };
+        for j in 0..w {
+            let here: Vec<B> = cols.iter().map(|c| c[r]).collect();
+            match &desc.cols[j] {
+                ColGen::Step { expr, .. } if r > 0 => {
+                    cols[j][r] = if r > last_rule_row {
+                        rand_elem(&mut rng)
+                    } else {
+                        let env =
+                            Env::<B, B, B> { cur: &prev, nxt: &here, per: &pper, acur: &[], anxt: &[], rand: &[], pubs: &[], seq: 0 };
+                        expr.eval(&env)
+                    };
+                },
+                ColGen::Fn(expr) => {
+                    cols[j][r] = if r > last_rule_row {
+                        rand_elem(&mut rng)
+                    } else {
+                        let env = Env::<B, B, B> { cur: &here, nxt: &[], per: &per, acur: &[], anxt: &[], rand: &[], pubs: &[], seq: 0 };
+                        expr.eval(&env)
+                    };
+                },
+                _ => {},
+            }
+        }
+    }
+    cols
+}
+
+fn to_data<B: GField>(cols: &[Vec<B>]) -> TraceData {
+    cols.iter().map(|c| c.iter().map(|v| v.canon()).collect()).collect()
+}
+
+fn from_data<B: GField>(data: &TraceData) -> Vec<Vec<B>> {
+    data.iter().map(|c| c.iter().map(|v| B::from_word(*v % B::MOD)).collect()).collect()
+}
+
+// ================================================================================================
+// REFERENCE VALIDITY PREDICATE (independent of the library: direct evaluation)
+// ================================================================================================
+#[derive(Copy, Clone, Debug, PartialEq, Eq)]
+pub enum ViolKind {
+    Shape,
+    Transition,
+    Assertion,
+    AuxTransition,
+    AuxAssertion,
+    LagrangeTransition,
+    LagrangeBoundary,
+}
+
+/// (kind, index of the constraint / assertion (column for Shape), step)
+#[derive(Copy, Clone, Debug, PartialEq, Eq)]
+pub struct Violation {
+    pub kind: ViolKind,
+    pub index: usize,
+    pub step: usize,
+}
+
+impl std::fmt::Display for Violation {
+    fn fmt(&self, f: &mut std::fmt::Formatter<'_>) -> std::fmt::Result {
+        write!(f, "{:?}[{}]@{}", self.kind, self.index, self.step)
+    }
+}
+
+fn viol(kind: ViolKind, index: usize, step: usize) -> Result<(), Violation> {
+    Err(Violation { kind, index, step })
+}
+
+/// main segment: every main transition constraint at every step `0 .. n - exemptions - 1` and
+/// every asserted cell against the public values `pubs` (in assertion order)
+pub fn check_main<B: GField>(desc: &AirDesc, cols: &[&[B]], pubs: &[B]) -> Result<(), Violation> {
+    let n = desc.trace_len;
+    if cols.len() != desc.width {
+        return viol(ViolKind::Shape, cols.len(), 0);
+    }
+    for (j, c) in cols.iter().enumerate() {
+        if c.len() != n {
+            return viol(ViolKind::Shape, j, c.len());
+        }
+    }
+    if pubs.len() != desc.num_pub_inputs() {
+        return viol(ViolKind::Shape, usize::MAX, pubs.len());
+    }
+    let mut pos = 0;
+    for (k, a) in desc.assertions.iter().enumerate() {
+        for (i, s) in a.steps(n).into_iter().enumerate() {
+            let expected = if a.kind == AssertKind::Sequence { pubs[pos + i] } else { pubs[pos] };
+            if cols[a.column][s] != expected {
+                return viol(ViolKind::Assertion, k, s);
+            }
+        }
+        pos += a.num_values(n);
+    }
+    for step in 0..n - desc.exemptions {
+        let cur: Vec<B> = cols.iter().map(|c| c[step]).collect();
+        let nxt: Vec<B> = cols.iter().map(|c| c[step + 1]).collect();
+        let per: Vec<B> = periodic_row(desc, step);
+        let env = Env::<B, B, B> { cur: &cur, nxt: &nxt, per: &per, acur: &[], anxt: &[], rand: &[], pubs: &[], seq: 0 };
+        for (k, c) in desc.constraints.iter().enumerate() {
+            if c.expr.eval(&env) != B::ZERO {
+                return viol(ViolKind::Transition, k, step);
+            }
+        }
+    }
+    Ok(())
+}
+
+/// auxiliary segment for given randomness: aux transition constraints on the non-exempt steps, aux
+/// assertions, and the Lagrange kernel column's defining relations
+pub fn check_aux<B: GField, E: FieldElement<BaseField = B>>(
+    desc: &AirDesc,
+    main: &[&[B]],
+    aux: &[Vec<E>],
+    rands: &[E],
+    lagrange_rands: &[E],
+    pubs: &[B],
+) -> Result<(), Violation> {
+    let n = desc.trace_len;
+    let x = match &desc.aux {
+        Some(x) => x,
+        None => return if aux.is_empty() { Ok(()) } else { viol(ViolKind::Shape, 0, 0) },
+    };
+    if aux.len() != x.width || aux.iter().any(|c| c.len() != n) {
+        return viol(ViolKind::Shape, aux.len(), 0);
+    }
+    for (k, a) in x.assertions.iter().enumerate() {
+        for (i, s) in a.a.steps(n).into_iter().enumerate() {
+            let seq = if a.a.kind == AssertKind::Sequence { i } else { 0 };
+            let env = Env::<B, B, E> { cur: &[], nxt: &[], per: &[], acur: &[], anxt: &[], rand: rands, pubs, seq };
+            if aux[a.a.column][s] != a.value.eval(&env) {
+                return viol(ViolKind::AuxAssertion, k, s);
+            }
+        }
+    }
+    for step in 0..n - desc.exemptions {
+        let cur: Vec<B> = main.iter().map(|c| c[step]).collect();
+        let nxt: Vec<B> = main.iter().map(|c| c[step + 1]).collect();
+        let per: Vec<B> = periodic_row(desc, step);
+        let acur: Vec<E> = aux.iter().map(|c| c[step]).collect();
+        let anxt: Vec<E> = aux.iter().map(|c| c[step + 1]).collect();
+        let env = Env::<B, B, E> { cur: &cur, nxt: &nxt, per: &per, acur: &acur, anxt: &anxt, rand: rands, pubs: &[], seq: 0 };
+        for (k, c) in x.constraints.iter().enumerate() {
+            if c.expr.eval(&env) != E::ZERO {
+                return viol(ViolKind::AuxTransition, k, step);
+            }
+        }
+    }
+    if x.lagrange {
+        // the column is the Lagrange kernel eq(r, i): c[0] = prod (1 - r_k) and, for every bit k,
+        // r_k * c[i] = (1 - r_k) * c[i + 2^k] whenever bits 0..=k of i are zero
+        let c = &aux[x.width - 1];
+        let v = n.ilog2() as usize;
+        if lagrange_rands.len() != v {
+            return viol(ViolKind::Shape, x.width - 1, lagrange_rands.len());
+        }
+        let first = lagrange_rands.iter().fold(E::ONE, |acc, r| acc * (E::ONE - *r));
+        if c[0] != first {
+            return viol(ViolKind::LagrangeBoundary, 0, 0);
+        }
+        for k in 0..v {
+            let mut i = 0;
+            while i < n {
+                if lagrange_rands[k] * c[i] != (E::ONE - lagrange_rands[k]) * c[i + (1 << k)] {
+                    return viol(ViolKind::LagrangeTransition, k, i);
+                }
+                i += 1 << (k + 1);
+            }
+        }
+    }
+    Ok(())
+}
+
+// ================================================================================================
+// NON-GENERIC FRONT END
+// ================================================================================================
+#[derive(Copy, Clone, Debug, PartialEq, Eq)]
+pub enum FieldId {
+    F62,
+    F64,
+    F128,
+}
+
+impl FieldId {
+    pub const ALL: [FieldId; 3] = [FieldId::F62, FieldId::F64, FieldId::F128];
+    pub fn name(self) -> &'static str {
+        match self {
+            FieldId::F62 => "f62",
+            FieldId::F64 => "f64",
+            FieldId::F128 => "f128",
+        }
+    }
+    pub fn parse(s: &str) -> Option<FieldId> {
+        Self::ALL.into_iter().find(|f| f.name() == s)
+    }
+    pub fn modulus(self) -> u128 {
+        match self {
+            FieldId::F62 => crate::fields::M62,
+            FieldId::F64 => crate::fields::M64,
+            FieldId::F128 => crate::fields::M128,
+        }
+    }
+    /// does the library implement this extension degree (1, 2, 3) of the field
+    pub fn supports_ext(self, ext: u8) -> bool {
+        use winter_math::fields::{CubeExtension, QuadExtension};
+        match (self, ext) {
+            (_, 1) => true,
+            (FieldId::F62, 2) => QuadExtension::<f62::BaseElement>::is_supported(),
+            (FieldId::F64, 2) => QuadExtension::<f64::BaseElement>::is_supported(),
+            (FieldId::F128, 2) => QuadExtension::<f128::BaseElement>::is_supported(),
+            (FieldId::F62, 3) => CubeExtension::<f62::BaseElement>::is_supported(),
+            (FieldId::F64, 3) => CubeExtension::<f64::BaseElement>::is_supported(),
+            (FieldId::F128, 3) => CubeExtension::<f128::BaseElement>::is_supported(),
+            _ => false,
+        }
+    }
+}
+
+#[derive(Copy, Clone, Debug, PartialEq, Eq)]
+pub enum HashId {
+    Blake3_256,
+    Blake3_192,
+    Sha3_256,
+    Rp64_256,
+    RpJive64_256,
+    Rp62_248,
+}
+
+impl HashId {
+    pub const ALL: [HashId; 6] =
+        [HashId::Blake3_256, HashId::Blake3_192, HashId::Sha3_256, HashId::Rp64_256, HashId::RpJive64_256, HashId::Rp62_248];
+    pub fn name(self) -> &'static str {
+        match self {
+            HashId::Blake3_256 => "blake3_256",
+            HashId::Blake3_192 => "blake3_192",
+            HashId::Sha3_256 => "sha3_256",
+            HashId::Rp64_256 => "rp64_256",
+            HashId::RpJive64_256 => "rpjive64_256",
+            HashId::Rp62_248 => "rp62_248",
+        }
+    }
+    pub fn parse(s: &str) -> Option<HashId> {
+        Self::ALL.into_iter().find(|f| f.name() == s)
+    }
+    /// algebraic hashers are tied to one base field
+    pub fn compatible(self, f: FieldId) -> bool {
+        match self {
+            HashId::Rp64_256 | HashId::RpJive64_256 => f == FieldId::F64,
+            HashId::Rp62_248 => f == FieldId::F62,
+            _ => true,
+        }
+    }
+    /// the hashers usable with a field
+    pub fn for_field(f: FieldId) -> Vec<HashId> {
+        Self::ALL.into_iter().filter(|h| h.compatible(f)).collect()
+    }
+    pub fn digest_bytes(self) -> usize {
+        match self {
+            HashId::Blake3_192 => 24,
+            HashId::Rp62_248 => 31,
+            _ => 32,
+        }
+    }
+}
+
+/// proof options as plain numbers; text form `q.b.g.x.f.r`
+#[derive(Copy, Clone, Debug, PartialEq, Eq)]
+pub struct OptSpec {
+    pub queries: usize,
+    pub blowup: usize,
+    pub grinding: u32,
+    /// extension degree 1, 2 or 3
+    pub ext: u8,
+    pub folding: usize,
+    pub remainder: usize,
+}
+
+impl OptSpec {
+    pub fn new(queries: usize, blowup: usize, grinding: u32, ext: u8, folding: usize, remainder: usize) -> Self {
+        OptSpec { queries, blowup, grinding, ext, folding, remainder }
+    }
+    /// exactly the tuples `ProofOptions::new` accepts (written from its documentation)
+    pub fn accepted(&self) -> bool {
+        (1..=255).contains(&self.queries)
+            && self.blowup.is_power_of_two()
+            && (2..=128).contains(&self.blowup)
+            && self.grinding <= 32
+            && (1..=3).contains(&self.ext)
+            && [2, 4, 8, 16].contains(&self.folding)
+            && self.remainder <= 255
+            && (self.remainder + 1).is_power_of_two()
+    }
+    /// panics where `ProofOptions::new` does
+    pub fn to_options(&self) -> ProofOptions {
+        let ext = match self.ext {
+            1 => FieldExtension::None,
+            2 => FieldExtension::Quadratic,
+            3 => FieldExtension::Cubic,
+            _ => panic!("extension degree must be 1, 2 or 3"),
+        };
+        ProofOptions::new(self.queries, self.blowup, self.grinding, ext, self.folding, self.remainder)
+    }
+    pub fn to_text(&self) -> String {
+        format!("{}.{}.{}.{}.{}.{}", self.queries, self.blowup, self.grinding, self.ext, self.folding, self.remainder)
+    }
+    pub fn parse(s: &str) -> Option<OptSpec> {
+        let v: Vec<u64> = s.split('.').map(|x| x.parse::<u64>().ok()).collect::<Option<Vec<_>>>()?;
+        if v.len() != 6 || v.iter().any(|x| *x > 1 << 20) {
+            return None;
+        }
+        Some(OptSpec::new(v[0] as usize, v[1] as usize, v[2] as u32, v[3] as u8, v[4] as usize, v[5] as usize))
+    }
+}
+
+macro_rules! dispatch {
+    ($field:expr, $hash:expr, $f:ident, ($($args:expr),*)) => {
+        match ($field, $hash) {
+            (FieldId::F62, HashId::Blake3_256) => $f::<f62::BaseElement, Blake3_256<f62::BaseElement>>($($args),*),
+            (FieldId::F62, HashId::Blake3_192) => $f::<f62::BaseElement, Blake3_192<f62::BaseElement>>($($args),*),
+            (FieldId::F62, HashId::Sha3_256) => $f::<f62::BaseElement, Sha3_256<f62::BaseElement>>($($args),*),
+            (FieldId::F62, HashId::Rp62_248) => $f::<f62::BaseElement, Rp62_248>($($args),*),
+            (FieldId::F64, HashId::Blake3_256) => $f::<f64::BaseElement, Blake3_256<f64::BaseElement>>($($args),*),
+            (FieldId::F64, HashId::Blake3_192) => $f::<f64::BaseElement, Blake3_192<f64::BaseElement>>($($args),*),
+            (FieldId::F64, HashId::Sha3_256) => $f::<f64::BaseElement, Sha3_256<f64::BaseElement>>($($args),*),
+            (FieldId::F64, HashId::Rp64_256) => $f::<f64::BaseElement, Rp64_256>($($args),*),
+            (FieldId::F64, HashId::RpJive64_256) => $f::<f64::BaseElement, RpJive64_256>($($args),*),
+            (FieldId::F128, HashId::Blake3_256) => $f::<f128::BaseElement, Blake3_256<f128::BaseElement>>($($args),*),
+            (FieldId::F128, HashId::Blake3_192) => $f::<f128::BaseElement, Blake3_192<f128::BaseElement>>($($args),*),
+            (FieldId::F128, HashId::Sha3_256) => $f::<f128::BaseElement, Sha3_256<f128::BaseElement>>($($args),*),
+            (f, h) => panic!("hasher {} cannot be used with field {}", h.name(), f.name()),
+        }
+    };
+}
+
+macro_rules! by_field {
+    ($field:expr, $f:ident, ($($args:expr),*)) => {
+        match $field {
+            FieldId::F62 => $f::<f62::BaseElement>($($args),*),
+            FieldId::F64 => $f::<f64::BaseElement>($($args),*),
+            FieldId::F128 => $f::<f128::BaseElement>($($args),*),
+        }
+    };
+}
+
+fn gen_trace_g<B: GField>(desc: &AirDesc, seed: u64) -> TraceData {
+    to_data(&gen_trace_in::<B>(desc, seed))
+}
+
+/// a main segment valid by construction for `desc` (see [`gen_trace_in`])
+pub fn gen_trace(desc: &AirDesc, field: FieldId, seed: u64) -> TraceData {
+    by_field!(field, gen_trace_g, (desc, seed))
+}
+
+fn pub_inputs_g<B: GField>(desc: &AirDesc, trace: &TraceData) -> Vec<u128> {
+    let cols = from_data::<B>(trace);
+    let refs: Vec<&[B]> = cols.iter().map(|c| c.as_slice()).collect();
+    asserted_values(desc, &refs).iter().map(|v| v.canon()).collect()
+}
+
+/// the asserted values of the main segment (= the public inputs), read off the trace
+pub fn pub_inputs(desc: &AirDesc, field: FieldId, trace: &TraceData) -> Vec<u128> {
+    by_field!(field, pub_inputs_g, (desc, trace))
+}
+
+fn is_valid_g<B: GField>(desc: &AirDesc, trace: &TraceData, pubs: &[u128]) -> Result<(), Violation> {
+    let cols = from_data::<B>(trace);
+    let refs: Vec<&[B]> = cols.iter().map(|c| c.as_slice()).collect();
+    let pubs: Vec<B> = pubs.iter().map(|v| B::from_word(*v % B::MOD)).collect();
+    check_main(desc, &refs, &pubs)
+}
+
+/// REFERENCE VALIDITY PREDICATE of the main segment against the public values `pubs`
+pub fn is_valid(desc: &AirDesc, field: FieldId, trace: &TraceData, pubs: &[u128]) -> Result<(), Violation> {
+    by_field!(field, is_valid_g, (desc, trace, pubs))
+}
+
+/// result of [`prove_ex`]
+pub struct ProveOut {
+    pub proof: Result<Proof, ProverError>,
+    /// verdict of [`check_aux`] on the auxiliary segment the prover built (None: no aux segment, or
+    /// proving stopped before it was built)
+    pub aux_check: Option<Result<(), Violation>>,
+}
+
+fn prove_g<B: GField, H: ElementHasher<BaseField = B> + Send + Sync>(
+    desc: &Arc<AirDesc>,
+    trace: &TraceData,
+    opts: &OptSpec,
+) -> ProveOut {
+    let prover = GenericProver::<B, H, DefaultRandomCoin<H>>::new(desc.clone(), opts.to_options());
+    let proof = prover.prove(GenTrace::<B>::new(desc, trace));
+    let aux_check = prover.aux_check.lock().unwrap().take();
+    ProveOut { proof, aux_check }
+}
+
+/// generate a proof for `trace` (panics where the library does; callers wrap it in
+/// `core::guarded`). `hasher` must be compatible with `field`.
+pub fn prove_ex(desc: &Arc<AirDesc>, trace: &TraceData, field: FieldId, opts: &OptSpec, hasher: HashId) -> ProveOut {
+    dispatch!(field, hasher, prove_g, (desc, trace, opts))
+}
+
+pub fn prove(desc: &Arc<AirDesc>, trace: &TraceData, field: FieldId, opts: &OptSpec, hasher: HashId) -> Result<Proof, ProverError> {
+    prove_ex(desc, trace, field, opts, hasher).proof
+}
+
+fn verify_g<B: GField, H: ElementHasher<BaseField = B> + Send + Sync>(
+    desc: &Arc<AirDesc>,
+    pubs: &[u128],
+    proof: Proof,
+    acceptable: &AcceptableOptions,
+) -> Result<(), VerifierError> {
+    let values: Vec<B> = pubs.iter().map(|v| B::from_word(*v % B::MOD)).collect();
+    winter_verifier::verify::<GenericAir<B>, H, DefaultRandomCoin<H>>(proof, GenPub { desc: desc.clone(), values }, acceptable)
+}
+
+/// verify `proof` for the computation `desc` and the public values `pubs`
+pub fn verify(
+    desc: &Arc<AirDesc>,
+    field: FieldId,
+    hasher: HashId,
+    pubs: &[u128],
+    proof: Proof,
+    acceptable: &AcceptableOptions,
+) -> Result<(), VerifierError> {
+    dispatch!(field, hasher, verify_g, (desc, pubs, proof, acceptable))
+}
+
+/// short stable name of a prover error
+pub fn prover_error_kind(e: &ProverError) -> String {
+    let s = format!("{:?}", e);
+    s.split(|c: char| !c.is_alphanumeric()).next().unwrap_or("error").to_string()
+}
+
+/// short stable name of a verifier error (FRI errors keep the inner kind)
+pub fn verifier_error_kind(e: &VerifierError) -> String {
+    let s = format!("{:?}", e);
+    let mut parts = s.split(|c: char| !c.is_alphanumeric()).filter(|p| !p.is_empty());
+    let first = parts.next().unwrap_or("error").to_string();
+    if first == "FriVerificationFailed" {
+        if let Some(inner) = parts.next() {
+            return format!("{}.{}", first, inner);
+        }
+    }
+    first
+}
+
+// ================================================================================================
+// RANDOM DESCRIPTIONS
+// ================================================================================================
+/// size budget of [`random_desc`]
+#[derive(Clone, Debug)]
+pub struct Budget {
+    /// trace length is 2^k with k in `min_log_len..=max_log_len` (k >= 3)
+    pub min_log_len: u32,
+    pub max_log_len: u32,
+    /// main width in `1..=max_width`
+    pub max_width: usize,
+    /// largest declared constraint degree (base + number of periodic factors), >= 1
+    pub max_degree: usize,
+    /// probability (in 1/100) of an auxiliary segment / of a Lagrange kernel column in it
+    pub aux_pct: u64,
+    pub lagrange_pct: u64,
+    /// allow more than one exemption / a junk tail
+    pub exemptions: bool,
+    /// include degenerate-but-valid material: constant and low-degree constrained columns, fixed
+    /// points of the step rules (the actual constraint degrees are then below the declared ones)
+    pub degenerate: bool,
+    /// longest sequence assertion is as long as the trace allows when true
+    pub sequences: bool,
+}
+
+impl Default for Budget {
+    fn default() -> Self {
+        Budget {
+            min_log_len: 3,
+            max_log_len: 5,
+            max_width: 6,
+            max_degree: 3,
+            aux_pct: 30,
+            lagrange_pct: 30,
+            exemptions: true,
+            degenerate: false,
+            sequences: true,
+        }
+    }
+}
+
+fn small_const(rng: &mut Rng) -> Expr {
+    Expr::Const(rng.range(2, 9) as u128)
+}
+
+/// a random valid description within the budget. Without `degenerate`, the declared degrees are
+/// the actual ones for the traces `gen_trace` produces (up to negligible probability).
+pub fn random_desc(rng: &mut Rng, bud: &Budget) -> AirDesc {
+    let n = 1usize << rng.range(bud.min_log_len.max(3) as u64, bud.max_log_len.max(bud.min_log_len).max(3) as u64);
+    let w = if rng.chance(1, 2) { rng.range(1, bud.max_width.min(4) as u64) } else { rng.range(1, bud.max_width as u64) } as usize;
+    let maxd = bud.max_degree.max(1);
+    // periodic columns
+    let np = if rng.chance(1, 2) { 0 } else { rng.range(1, 3) as usize };
+    let mut periodic = vec![];
+    for _ in 0..np {
+        let c = 1usize << rng.range(1, n.ilog2() as u64);
+        periodic.push((0..c).map(|_| rng.range(1, 1 << 40) as u128).collect::<Vec<u128>>());
+    }
+    let mut cols: Vec<ColGen> = vec![];
+    let mut constraints: Vec<Constraint> = vec![];
+    let cycles: Vec<usize> = periodic.iter().map(|p| p.len()).collect();
+    let mk = |expr: Expr, constraints: &mut Vec<Constraint>| {
+        let degree = expr.degree(&cycles, n);
+        constraints.push(Constraint { degree, expr });
+    };
+    // columns whose cells are "generic" (full degree n-1) so far: usable as top-degree factors
+    let mut generic: Vec<usize> = vec![];
+    // constant / cyclic columns (for periodic assertions): (column, period)
+    let mut cyclic: Vec<(usize, usize)> = vec![];
+    for j in 0..w {
+        let any = |rng: &mut Rng| -> usize { rng.below(w as u64) as usize };
+        let gen_or_self = |rng: &mut Rng, generic: &Vec<usize>| -> usize {
+            if generic.is_empty() || rng.chance(1, 2) {
+                j
+            } else {
+                *rng.pick(generic)
+            }
+        };
+        let family = if j == 0 && !bud.degenerate { rng.below(4) } else { rng.below(if bud.degenerate { 12 } else { 9 }) };
+        match family {
+            // fib-like linear recurrence over current cells (and the next cell of a lower column)
+            0 => {
+                let a = gen_or_self(rng, &generic);
+                let mut e = Expr::mul(small_const(rng), Expr::Cur(a));
+                for _ in 0..rng.below(3) {
+                    e = Expr::add(e, Expr::Cur(any(rng)));
+                }
+                if j > 0 && rng.chance(1, 3) {
+                    e = Expr::add(e, Expr::Nxt(rng.below(j as u64) as usize));
+                }
+                mk(Expr::sub(Expr::Nxt(j), e.clone()), &mut constraints);
+                cols.push(ColGen::Step { init: None, expr: e });
+                generic.push(j);
+            },
+            // x' = x^d + periodic + y
+            1 => {
+                let d = rng.range(1, maxd as u64) as u32;
+                let mut e = Expr::pow(Expr::Cur(j), d);
+                if np > 0 && rng.chance(2, 3) {
+                    e = Expr::add(e, Expr::Per(rng.below(np as u64) as usize));
+                }
+                if rng.chance(1, 2) {
+                    e = Expr::add(e, Expr::Cur(any(rng)));
+                } else {
+                    e = Expr::add(e, small_const(rng));
+                }
+                mk(Expr::sub(Expr::Nxt(j), e.clone()), &mut constraints);
+                cols.push(ColGen::Step { init: None, expr: e });
+                generic.push(j);
+            },
+            // x' = periodic * x^(d-1) * y + k   (degree with a cycle)
+            2 if np > 0 && maxd >= 2 => {
+                let d = rng.range(1, (maxd - 1) as u64) as u32;
+                let p = rng.below(np as u64) as usize;
+                let mut e = Expr::mul(Expr::Per(p), Expr::pow(Expr::Cur(j), d));
+                e = Expr::add(e, small_const(rng));
+                mk(Expr::sub(Expr::Nxt(j), e.clone()), &mut constraints);
+                cols.push(ColGen::Step { init: None, expr: e });
+                generic.push(j);
+            },
+            // multi-column mix: x' = x * y + z (degree 2) or x*y*z
+            3 | 2 => {
+                let e = if maxd >= 3 && rng.chance(1, 3) {
+                    Expr::add(Expr::mul(Expr::mul(Expr::Cur(j), Expr::Cur(gen_or_self(rng, &generic))), Expr::Cur(j)), Expr::Cur(any(rng)))
+                } else if maxd >= 2 {
+                    Expr::add(Expr::mul(Expr::Cur(j), Expr::Cur(gen_or_self(rng, &generic))), small_const(rng))
+                } else {
+                    Expr::add(Expr::Cur(j), small_const(rng))
+                };
+                mk(Expr::sub(Expr::Nxt(j), e.clone()), &mut constraints);
+                cols.push(ColGen::Step { init: None, expr: e });
+                generic.push(j);
+            },
+            // free columns
+            4 => {
+                cols.push(ColGen::Rand);
+                generic.push(j);
+            },
+            5 => {
+                cols.push(ColGen::Counter);
+                mk(Expr::sub(Expr::Nxt(j), Expr::add(Expr::Cur(j), Expr::Const(1))), &mut constraints);
+                generic.push(j);
+            },
+            6 => {
+                let c = 1usize << rng.range(0, n.ilog2() as u64 - 1);
+                if c == 1 {
+                    cols.push(ColGen::Const(if rng.chance(1, 2) { None } else { Some(rng.below(3) as u128) }));
+                } else {
+                    cols.push(ColGen::Cyc(c));
+                }
+                cyclic.push((j, c));
+            },
+            7 => cols.push(ColGen::LowDeg(rng.below((n - 1) as u64) as usize)),
+            // pointwise function of lower columns: c_j = c_a * c_b
+            8 if j > 0 && maxd >= 2 && !generic.is_empty() && generic.iter().any(|g| *g < j) => {
+                let lower: Vec<usize> = generic.iter().copied().filter(|g| *g < j).collect();
+                let a = *rng.pick(&lower);
+                let bcol = *rng.pick(&lower);
+                let e = Expr::mul(Expr::Cur(a), Expr::Cur(bcol));
+                mk(Expr::sub(Expr::Cur(j), e.clone()), &mut constraints);
+                cols.push(ColGen::Fn(e));
+            },
+            8 => {
+                cols.push(ColGen::Rand);
+                generic.push(j);
+            },
+            // ---- degenerate material
+            // constant column with the constraint x' = x
+            9 => {
+                cols.push(ColGen::Const(if rng.chance(1, 2) { None } else { Some(rng.below(2) as u128) }));
+                mk(Expr::sub(Expr::Nxt(j), Expr::Cur(j)), &mut constraints);
+                cyclic.push((j, 1));
+            },
+            // fixed point of a power map: x' = x^d started at 0 or 1
+            10 => {
+                let d = rng.range(1, maxd as u64) as u32;
+                let e = Expr::pow(Expr::Cur(j), d);
+                mk(Expr::sub(Expr::Nxt(j), e.clone()), &mut constraints);
+                cols.push(ColGen::Step { init: Some(rng.below(2) as u128), expr: e });
+                cyclic.push((j, 1));
+            },
+            // low-degree column constrained by a product with a generic column of degree 2
+            _ => {
+                cols.push(ColGen::LowDeg(rng.below(3) as usize));
+                if maxd >= 2 {
+                    let e = Expr::mul(Expr::sub(Expr::Nxt(j), Expr::Cur(j)), Expr::Const(0));
+                    // 0 * (x' - x): identically zero constraint of declared degree 1
+                    constraints.push(Constraint { degree: Degree::new(1), expr: e });
+                }
+            },
+        }
+    }
+    if constraints.is_empty() {
+        // every AIR needs a transition constraint: tie column 0 to a rule
+        let e = Expr::add(Expr::Cur(0), Expr::Const(3));
+        cols[0] = ColGen::Step { init: None, expr: e.clone() };
+        cyclic.retain(|c| c.0 != 0);
+        constraints.push(Constraint { degree: Degree::new(1), expr: Expr::sub(Expr::Nxt(0), e) });
+    }
+    let mut desc = AirDesc { width: w, trace_len: n, exemptions: 1, tail_junk: false, periodic, cols, constraints, assertions: vec![], aux: None };
+
+    // ---- assertions (main): no two on the same cell
+    let mut used = std::collections::HashSet::new();
+    let mut try_add = |a: AssertDesc, list: &mut Vec<AssertDesc>, used: &mut std::collections::HashSet<(usize, usize)>| -> bool {
+        let steps = a.steps(n);
+        if steps.iter().any(|s| used.contains(&(a.column, *s))) {
+            return false;
+        }
+        for s in steps {
+            used.insert((a.column, s));
+        }
+        list.push(a);
+        true
+    };
+    let mut assertions = vec![];
+    let na = rng.range(1, 4);
+    for _ in 0..na {
+        let col = rng.below(w as u64) as usize;
+        let kind = rng.below(10);
+        let a = if kind < 5 {
+            let any_step = rng.below(n as u64) as usize;
+            let step = *rng.pick(&[0usize, 0, 1, n - 1, n - 2, n / 2, any_step]);
+            AssertDesc::single(col, step)
+        } else if kind < 8 && bud.sequences {
+            let stride = 1usize << rng.range(1, n.ilog2() as u64);
+            let first = if rng.chance(1, 2) { 0 } else { rng.below(stride as u64) as usize };
+            AssertDesc::sequence(col, first, stride)
+        } else if !cyclic.is_empty() {
+            let (c, period) = *rng.pick(&cyclic);
+            let lo = period.max(2).ilog2() as u64;
+            let stride = 1usize << rng.range(lo, n.ilog2() as u64);
+            let first = if rng.chance(1, 2) { 0 } else { rng.below(stride as u64) as usize };
+            AssertDesc::periodic(c, first, stride)
+        } else {
+            AssertDesc::single(col, 0)
+        };
+        try_add(a, &mut assertions, &mut used);
+    }
+    if assertions.is_empty() {
+        assertions.push(AssertDesc::single(0, 0));
+    }
+    desc.assertions = assertions;
+
+    // ---- auxiliary segment
+    if rng.below(100) < bud.aux_pct && desc.total_width() < 250 {
+        let lagrange = rng.below(100) < bud.lagrange_pct;
+        let nreg = rng.range(1, 3) as usize;
+        let num_rands = rng.range(1, 3) as usize;
+        let mut acols = vec![];
+        let mut acons = vec![];
+        let mut aasserts: Vec<AuxAssertDesc> = vec![];
+        let cycles = desc.cycles();
+        for j in 0..nreg {
+            let x = rng.below(w as u64) as usize;
+            let r0 = Expr::Rand(rng.below(num_rands as u64) as usize);
+            let r1 = Expr::Rand(rng.below(num_rands as u64) as usize);
+            let kind = if j == 0 { rng.below(2) } else { rng.below(3) };
+            match kind {
+                // pointwise random linear image of a main column: a = r0 * c_x + r1
+                0 => {
+                    let e = Expr::add(Expr::mul(r0.clone(), Expr::Cur(x)), r1.clone());
+                    let c = Expr::sub(Expr::AuxCur(j), e.clone());
+                    acons.push(Constraint { degree: c.degree(&cycles, n), expr: c });
+                    acols.push(AuxGen::Fn(e));
+                    // an aux assertion tied to a main public value when one exists on column x
+                    let mut pos = 0;
+                    for a in desc.assertions.iter() {
+                        if a.column == x && aasserts.iter().all(|q| q.a.column != j) {
+                            let (ad, val) = match a.kind {
+                                AssertKind::Single => (AssertDesc::single(j, a.first), Expr::Pub(pos)),
+                                AssertKind::Periodic => (AssertDesc::periodic(j, a.first, a.stride), Expr::Pub(pos)),
+                                AssertKind::Sequence => (AssertDesc::sequence(j, a.first, a.stride), Expr::PubSeq(pos)),
+                            };
+                            aasserts.push(AuxAssertDesc { a: ad, value: Expr::add(Expr::mul(r0.clone(), val), r1.clone()) });
+                        }
+                        pos += a.num_values(n);
+                    }
+                },
+                // running product z' = z * (c_x + r0), z_0 = 1
+                1 => {
+                    let f = Expr::add(Expr::Cur(x), r0.clone());
+                    let step = Expr::mul(Expr::AuxCur(j), f);
+                    let c = Expr::sub(Expr::AuxNxt(j), step.clone());
+                    acons.push(Constraint { degree: c.degree(&cycles, n), expr: c });
+                    acols.push(AuxGen::Acc { init: Expr::Const(1), step });
+                    aasserts.push(AuxAssertDesc { a: AssertDesc::single(j, 0), value: Expr::Const(1) });
+                },
+                // permutation-style quotient z' (c_y + r) = z (c_x + r) using a lower aux column too
+                _ => {
+                    let y = rng.below(w as u64) as usize;
+                    let num = Expr::add(Expr::add(Expr::Cur(x), r0.clone()), Expr::AuxCur(j - 1));
+                    let den = Expr::add(Expr::Cur(y), r0.clone());
+                    let step = Expr::div(Expr::mul(Expr::AuxCur(j), num.clone()), den.clone());
+                    let c = Expr::sub(Expr::mul(Expr::AuxNxt(j), den), Expr::mul(Expr::AuxCur(j), num));
+                    acons.push(Constraint { degree: c.degree(&cycles, n), expr: c });
+                    acols.push(AuxGen::Acc { init: r1.clone(), step });
+                    aasserts.push(AuxAssertDesc { a: AssertDesc::single(j, 0), value: r1.clone() });
+                },
+            }
+        }
+        if aasserts.is_empty() {
+            // assert the first cell of aux column 0 through a fresh main assertion if possible
+            if let Some(AuxGen::Fn(e)) = acols.first() {
+                // a = r_i * c_x + r_k  at step 0
+                let mut x = 0;
+                e.walk(&mut |t| {
+                    if let Expr::Cur(i) = t {
+                        x = *i;
+                    }
+                });
+                let pos = desc.num_pub_inputs();
+                let mut list = desc.assertions.clone();
+                let cell = (0..n).find(|s| !used.contains(&(x, *s))).unwrap_or(0);
+                if try_add(AssertDesc::single(x, cell), &mut list, &mut used) {
+                    desc.assertions = list;
+                    let mut rs = vec![];
+                    e.walk(&mut |t| {
+                        if let Expr::Rand(_) = t {
+                            rs.push(t.clone());
+                        }
+                    });
+                    aasserts.push(AuxAssertDesc {
+                        a: AssertDesc::single(0, cell),
+                        value: Expr::add(Expr::mul(rs[0].clone(), Expr::Pub(pos)), rs[1].clone()),
+                    });
+                }
+            }
+        }
+        if !aasserts.is_empty() && maxd >= 2 || (!aasserts.is_empty() && acons.iter().all(|c| c.degree.base + c.degree.cycles.len() <= maxd)) {
+            // keep the aux constraints within the degree budget
+            if acons.iter().all(|c| c.degree.base + c.degree.cycles.len() <= maxd.max(2)) {
+                desc.aux = Some(AuxDesc {
+                    width: nreg + lagrange as usize,
+                    num_rands,
+                    lagrange,
+                    cols: acols,
+                    constraints: acons,
+                    assertions: aasserts,
+                });
+            }
+        }
+    }
+
+    // ---- exemptions
+    if bud.exemptions && rng.chance(1, 3) {
+        let m = desc.max_exemptions();
+        if m >= 1 {
+            let any_e = rng.range(1, m as u64) as usize;
+            desc.exemptions = *rng.pick(&[1usize, 2.min(m), m, any_e]);
+            desc.tail_junk = desc.exemptions > 1 && rng.chance(1, 2);
+        }
+    }
+    debug_assert!(desc.validate().is_ok(), "random_desc produced an invalid description: {:?} {}", desc.validate(), desc.to_line());
+    desc
+}
